@@ -1,6 +1,8 @@
 import CrCube.Driver.SliceApi
 import CrCube.Model.NumericMeasures
 import CrCube.Spec.NumericSpec
+import CrCube.Model.ValidCountsSummary
+import CrCube.Spec.ValidCountsSummarySpec
 
 open Lean
 
@@ -173,7 +175,11 @@ def opNumApi : Handler := fun j => do
     ("medians", cubeArr a.medians),
     ("unweighted_valid_counts", cubeArr a.uvalid),
     ("weighted_valid_counts", cubeArr a.wvalid),
-    ("missing", jNat (p.missingCount a))]
+    ("missing", jNat (p.missingCount a)),
+    ("valid_counts_summary_range",
+      match d.validCountsSummaryRange a with
+      | none => .null
+      | some (lo, hi) => jVals [lo, hi])]
   let nd := d.ndim
   let parts : List Json :=
     if nd = 0 then [nubJson d a]
@@ -252,7 +258,14 @@ def opNumSpec : Handler := fun j => do
          ("ucounts", mk u false false), ("urow_bases", mk u false true),
          ("ucolumn_bases", mk u true false), ("utable_bases", mk u true true)]
     jObj (cj ++ sj)
-  pure (jObj [("ndim", jNat nd), ("npartitions", jNat nparts),
+  let summary : Json :=
+    match survey with
+    | none => .null
+    | some s =>
+      match summarySpecRange vars nOpt (unweight s) with
+      | none => .null
+      | some (lo, hi) => jVals [lo, hi]
+  pure (jObj [("ndim", jNat nd), ("npartitions", jNat nparts), ("summary_range", summary),
               ("parts", .arr ((List.range nparts).map part).toArray)])
 
 def ops : List (String × Handler) :=
